@@ -82,6 +82,12 @@ class PiecewiseTreeRegressor(DecisionTreeRegressor):
 
         if self.criterion == "mselin":
             self._fit_reglin(X, y, sample_weight)
+        else:
+            # nothing of a previous fit with criterion 'mselin' is kept:
+            # predict_leaves would use the leaves of the previous tree
+            for att in ("leaves_index_", "leaves_mapping_", "betas_"):
+                if hasattr(self, att):
+                    delattr(self, att)
         return self
 
     def _mapping_train(self, X):
